@@ -5,7 +5,7 @@ use super::fragment::{
     from_previous_record_data_records::FromPreviousRecordDataRecordsGenerator,
     from_previous_record_impls::FromPreviousRecordImplsGenerator,
     from_unpacked_record_impls::FromUnpackedRecordImplsGenerator, record::RecordGenerator,
-    record_impl::RecordImplGenerator, FragmentGenerator,
+    record_impl::RecordImplGenerator, thread_safety::ThreadSafetyImplGenerator, FragmentGenerator,
 };
 
 /// Main configuration entry point.
@@ -14,11 +14,12 @@ pub struct GeneratorConfig {
 }
 
 impl GeneratorConfig {
-    fn common_fragment_generators() -> [Box<dyn FragmentGenerator>; 7] {
+    fn common_fragment_generators() -> [Box<dyn FragmentGenerator>; 8] {
         [
             Box::new(DataRecordsGenerator),
             Box::new(RecordGenerator),
             Box::new(RecordImplGenerator),
+            Box::new(ThreadSafetyImplGenerator),
             Box::new(DropImplGenerator),
             Box::new(FromUnpackedRecordImplsGenerator),
             Box::new(FromPreviousRecordDataRecordsGenerator),
